@@ -118,6 +118,7 @@ func NewServer(mux Assigner, opts *ServerOptions) *Server {
 // block while the server runs. Start will panic if the server is already
 // running. It returns s to allow chaining with construction.
 func (s *Server) Start(c channel.Channel) *Server {
+	verifPointS("srv.start.lock", "")
 	s.mu.Lock()
 	defer s.mu.Unlock()
 	if s.ch != nil {
